@@ -87,6 +87,11 @@ theorem fsw_queueMaxStreamId {s s' : State} {b : Bool} (h : s.queueMaxStreamId =
     rw [← h.1]
     try rfl
 
+theorem fsw_queueMaxIf {s s' : State} {c : Bool} (h : s.queueMaxIf c = some s') : s'.fsw = s.fsw := by
+  rcases queueMaxIf_cases h with rfl | ⟨b, hq⟩
+  · rfl
+  · exact fsw_queueMaxStreamId hq
+
 /-! ### sender-side operations -/
 
 theorem fsw_write {s s' : State} {id n : Nat} {r : Except WriteErr Nat} (h : s.write id n = some (s', r)) :
@@ -479,8 +484,9 @@ theorem fsw_stop {s s' : State} {id code : Nat} {b : Bool}
        first
         | exact f1
         | (have f2 := fsw_freeRecvIf ‹State.freeRecvIf _ _ _ = some _›
+           have f2q := fsw_queueMaxIf ‹State.queueMaxIf _ _ = some _›
            have f3 := fsw_creditAndQueue ‹State.creditAndQueue _ _ = some _›
-           exact f3.trans (f2.trans ((fsw_queueStopSending _ _ _ _).trans f1))))
+           exact f3.trans (f2q.trans (f2.trans ((fsw_queueStopSending _ _ _ _).trans f1)))))
 
 theorem fsw_recvReceivedReset {s s' : State} {id : Nat} {r : Option (Option Nat)}
     (h : s.recvReceivedReset id = some (s', r)) : s'.fsw = s.fsw := by
